@@ -7,6 +7,7 @@ import (
 	"fmt"
 	"go/ast"
 	"go/types"
+	"sort"
 	"strconv"
 	"strings"
 
@@ -20,10 +21,12 @@ type SpecDB struct {
 	axioms    []*AxiomDef
 	lemmas    []*LemmaDef
 	files     []string
+	hfuncs    map[string]*HFuncDef
+	hpkg      map[string]string // hfunc -> package name of the file declaring it
 }
 
 func newSpecDB() *SpecDB {
-	return &SpecDB{contracts: map[string]*Contract{}, macros: map[string]*MacroDef{}, ufuncs: map[string]*UFuncDef{}}
+	return &SpecDB{contracts: map[string]*Contract{}, macros: map[string]*MacroDef{}, ufuncs: map[string]*UFuncDef{}, hfuncs: map[string]*HFuncDef{}, hpkg: map[string]string{}}
 }
 
 func (db *SpecDB) add(sf *SpecFile, prefix string, file string) error {
@@ -50,6 +53,13 @@ func (db *SpecDB) add(sf *SpecFile, prefix string, file string) error {
 	}
 	for _, s := range sf.Sorts {
 		declareSort(s)
+	}
+	for _, g := range sf.Ghosts {
+		ghostSorts[g.Name] = g.Sort
+	}
+	for _, h := range sf.HFuncs {
+		db.hfuncs[h.Name] = h
+		db.hpkg[h.Name] = prefix
 	}
 	db.axioms = append(db.axioms, sf.Axioms...)
 	db.lemmas = append(db.lemmas, sf.Lemmas...)
@@ -80,6 +90,7 @@ type SpecEnv struct {
 	fr   *Frame // for invariants: locals
 	loop *LoopInfo
 	self string // name of function (diagnostics)
+	free map[string]freeBinding
 }
 
 type specError struct{ msg string }
@@ -259,6 +270,11 @@ func (env *SpecEnv) evalIdent(e *Expr) SVal {
 	}
 	if le, ok := env.lets[e.Name]; ok {
 		return env.eval(le)
+	}
+	if fb, ok := env.free[e.Name]; ok {
+		t := env.x.loadPtr(env.st, fb.ptr, fb.elem)
+		env.wfRead(t, fb.elem)
+		return SVal{T: t, GT: fb.elem}
 	}
 	if env.fr != nil {
 		if v, ok := env.localVar(e.Name); ok {
@@ -473,7 +489,11 @@ func (env *SpecEnv) evalField(e *Expr) SVal {
 		if i < 0 {
 			env.errf(e, "type %s has no field %s", pt.Elem(), e.Name)
 		}
-		lv := env.x.fieldLV(Value{T: b.T, LV: b.LV}, pt.Elem(), i)
+		ptr := Value{T: b.T}
+		if b.T == nil {
+			ptr.LV = b.LV // an interior pointer held in a register
+		}
+		lv := env.x.fieldLV(ptr, pt.Elem(), i)
 		t := env.x.readLV(env.st, lv)
 		env.wfRead(t, st.Field(i).Type())
 		return SVal{T: t, GT: st.Field(i).Type(), LV: lv}
@@ -612,6 +632,18 @@ func (env *SpecEnv) evalCall(e *Expr) SVal {
 	case "zero":
 		t := env.goType(e.Args[0])
 		return SVal{T: zeroTerm(t), GT: t}
+	case "zeroarr":
+		t := env.goType(e.Args[0])
+		return SVal{T: ConstArray(arraySort("Int", sortOf(t)), zeroTerm(t))}
+	case "store":
+		a := env.eval(e.Args[0])
+		i := env.eval(e.Args[1])
+		v := env.eval(e.Args[2])
+		return SVal{T: Store(a.T, i.T, v.T)}
+	case "select":
+		a := env.eval(e.Args[0])
+		i := env.eval(e.Args[1])
+		return SVal{T: Select(a.T, i.T)}
 	case "fresh":
 		a := env.eval(e.Args[0])
 		if env.old == nil {
@@ -652,6 +684,25 @@ func (env *SpecEnv) evalCall(e *Expr) SVal {
 			env.errf(e, "idx(%d): range index not yet defined", n)
 		}
 		return SVal{T: Add(v.T, Int(1))}
+	case "now":
+		// now(x): the value of source variable x that reaches this program point (invariants, monitors)
+		if env.fr == nil || e.Args[0].Kind != "id" {
+			env.errf(e, "now(x) needs a frame and an identifier")
+		}
+		v, ok := env.reachingDef(e.Args[0].Name)
+		if !ok {
+			env.errf(e, "now(%s): no reaching definition found", e.Args[0].Name)
+		}
+		return v
+	case "contents":
+		a := env.eval(e.Args[0])
+		if a.T == nil || a.T.Sort != sortSlice || a.GT == nil {
+			env.errf(e, "contents() of a non-slice")
+		}
+		et := a.GT.Underlying().(*types.Slice).Elem()
+		key, hs := elemHeapKey(sortOf(et))
+		row := Select(env.st.H(key, hs), sArr(a.T))
+		return SVal{T: normArray(row, sOff(a.T), sLen(a.T), et)}
 	case "trim":
 		a := env.eval(e.Args[0])
 		return SVal{T: UF("strings.TrimSpace", sortStr, a.T), GT: a.GT}
@@ -669,6 +720,9 @@ func (env *SpecEnv) evalCall(e *Expr) SVal {
 			n.vars[p] = env.eval(e.Args[i])
 		}
 		return n.eval(m.Body)
+	}
+	if h, ok := env.x.specs.hfuncs[e.Name]; ok {
+		return env.callHFunc(h, e)
 	}
 	if u, ok := env.x.specs.ufuncs[e.Name]; ok {
 		if len(u.Params) != len(e.Args) {
@@ -708,4 +762,263 @@ func (env *SpecEnv) goType(e *Expr) types.Type {
 		env.errf(e, "%v", err)
 	}
 	return t
+}
+
+// normArray(row, off, len) is the array c with c[i] = row[off+i] for 0 <= i < len and the
+// zero value elsewhere: the contents of a slice, independent of its representation.
+var normFuncs = map[string]types.Type{}
+
+func normArray(row, off, n *Term, et types.Type) *Term {
+	name := "norm_" + sortTag(sortOf(et))
+	normFuncs[name] = et
+	return UF(name, row.Sort, row, off, n)
+}
+
+func normAxioms() []*Term {
+	var out []*Term
+	var names []string
+	for n := range normFuncs {
+		names = append(names, n)
+	}
+	sort.Strings(names)
+	for _, name := range names {
+		et := normFuncs[name]
+		rs := arraySort("Int", sortOf(et))
+		row := BoundVar("q_row", rs)
+		off := BoundVar("q_off", "Int")
+		n := BoundVar("q_n", "Int")
+		i := BoundVar("q_i", "Int")
+		app := App(name, rs, row, off, n)
+		out = append(out, Forall([]*Term{row, off, n, i}, [][]*Term{{Select(app, i)}},
+			Eq(Select(app, i), Ite(And(Ge(i, Int(0)), Lt(i, n)), Select(row, ix(off, i)), zeroTerm(et)))))
+	}
+	return out
+}
+
+// heap-reading specification functions ------------------------------------------------
+
+type hTemplate struct {
+	params []*Term
+	heaps  []*Term
+	body   *Term
+	sorts  []string
+	gts    []types.Type
+}
+
+var hTemplates = map[string]*hTemplate{}
+
+func (env *SpecEnv) hParamSort(h *HFuncDef, p HParam) (string, types.Type) {
+	t := strings.TrimSpace(p.Type)
+	if t == "Int" || t == "Bool" || strings.HasPrefix(t, "(") || uninterpSorts[t] || dtTab[t] != nil {
+		return t, nil
+	}
+	pkg := env.x.w.pkgByName(env.x.specs.hpkg[h.Name], nil)
+	gt, err := env.x.w.parseGoType(t, pkg)
+	if err != nil {
+		panic(unsupported{fmt.Sprintf("%s:%d: hfunc %s: %v", shortFile(h.File), h.Line, h.Name, err)})
+	}
+	return sortOf(gt), gt
+}
+
+func (env *SpecEnv) hSig(h *HFuncDef) ([]string, []types.Type) {
+	var sorts []string
+	var gts []types.Type
+	for _, p := range h.Params {
+		s, gt := env.hParamSort(h, p)
+		sorts = append(sorts, s)
+		gts = append(gts, gt)
+	}
+	return sorts, gts
+}
+
+func (env *SpecEnv) callHFunc(h *HFuncDef, e *Expr) SVal {
+	if len(e.Args) != len(h.Params) {
+		env.errf(e, "hfunc %s: %d args, want %d", h.Name, len(e.Args), len(h.Params))
+	}
+	sorts, _ := env.hSig(h)
+	var args []*Term
+	var psorts []string
+	for i, a := range e.Args {
+		v := env.eval(a)
+		if v.IsNil {
+			v = env.nilOf(SVal{T: Const("nil_dummy_"+sortTag(sorts[i]), sorts[i])}, e)
+		}
+		if v.T == nil || v.T.Sort != sorts[i] {
+			env.errf(e, "hfunc %s arg %d: sort %s, want %s", h.Name, i, sortName(v), sorts[i])
+		}
+		args = append(args, v.T)
+		psorts = append(psorts, sorts[i])
+	}
+	for _, k := range h.Reads {
+		hs, ok := heapSorts[k]
+		if !ok {
+			env.errf(e, "hfunc %s reads unknown heap %s (not yet used by any code or contract)", h.Name, k)
+		}
+		args = append(args, env.st.H(k, hs))
+		psorts = append(psorts, hs)
+	}
+	declare(h.Name, psorts, h.Ret)
+	return SVal{T: App(h.Name, h.Ret, args...)}
+}
+
+// hfuncTemplate evaluates the body of h once over bound parameters and bound heap arrays.
+func (x *Exec) hfuncTemplate(h *HFuncDef) *hTemplate {
+	if t, ok := hTemplates[h.Name]; ok {
+		return t
+	}
+	env := &SpecEnv{x: x, vars: map[string]SVal{}, lets: map[string]*Expr{}}
+	env.pkg = x.w.pkgByName(x.specs.hpkg[h.Name], nil)
+	sorts, gts := env.hSig(h)
+	t := &hTemplate{sorts: sorts, gts: gts}
+	hTemplates[h.Name] = t // recursion: callHFunc only needs the signature
+	st := newState()
+	st.alloc = BoundVar("hp_alloc", "Int")
+	for i, p := range h.Params {
+		bv := BoundVar("hp_"+h.Name+"_"+p.Name, sorts[i])
+		t.params = append(t.params, bv)
+		env.vars[p.Name] = SVal{T: bv, GT: gts[i]}
+	}
+	for _, k := range h.Reads {
+		hs, ok := heapSorts[k]
+		if !ok {
+			panic(unsupported{fmt.Sprintf("hfunc %s reads unknown heap %s", h.Name, k)})
+		}
+		bv := BoundVar("hh_"+k, hs)
+		t.heaps = append(t.heaps, bv)
+		st.heap[k] = bv
+	}
+	st.sealed = true
+	env.st = st
+	env.old = st
+	x.dry++
+	v := env.eval(h.Body)
+	x.dry--
+	if v.T == nil || v.T.Sort != h.Ret {
+		panic(unsupported{fmt.Sprintf("hfunc %s: body has sort %s, want %s", h.Name, sortName(v), h.Ret)})
+	}
+	t.body = v.T
+	return t
+}
+
+// unfoldHFuncs adds, for every ground application of a heap-reading specification function
+// occurring in ts, the instance of its definition (two rounds).
+func (x *Exec) unfoldHFuncs(ts []*Term) []*Term {
+	if len(x.specs.hfuncs) == 0 {
+		return nil
+	}
+	seen := map[*Term]bool{}
+	var out []*Term
+	work := ts
+	for round := 0; round < 2; round++ {
+		var found []*Term
+		visited := map[*Term]bool{}
+		var rec func(t *Term)
+		rec = func(t *Term) {
+			if visited[t] {
+				return
+			}
+			visited[t] = true
+			for _, a := range t.Args {
+				rec(a)
+			}
+			if t.kind == kApp && !t.hasBV && !seen[t] {
+				if _, ok := x.specs.hfuncs[t.Op]; ok {
+					seen[t] = true
+					found = append(found, t)
+				}
+			}
+		}
+		for _, t := range work {
+			rec(t)
+		}
+		if len(found) == 0 {
+			break
+		}
+		var inst []*Term
+		for _, app := range found {
+			h := x.specs.hfuncs[app.Op]
+			tpl := x.hfuncTemplate(h)
+			m := map[*Term]*Term{}
+			for i, p := range tpl.params {
+				m[p] = app.Args[i]
+			}
+			for i, hv := range tpl.heaps {
+				m[hv] = app.Args[len(tpl.params)+i]
+			}
+			inst = append(inst, Eq(app, Subst(tpl.body, m)))
+		}
+		out = append(out, inst...)
+		work = inst
+	}
+	return out
+}
+
+// reachingDef finds, through debug references, the definition of a source variable that
+// reaches the loop head of the invariant being evaluated: a phi at the head, otherwise the
+// dominating definition that is latest in dominance order.
+func (env *SpecEnv) reachingDef(name string) (SVal, bool) {
+	fr := env.fr
+	if env.loop == nil {
+		return SVal{}, false
+	}
+	head := env.loop.Head
+	for _, ins := range head.Instrs {
+		if phi, ok := ins.(*ssa.Phi); ok && phi.Comment == name {
+			if v, ok := fr.regs[phi]; ok {
+				return env.fromValue(v, phi.Type()), true
+			}
+		}
+	}
+	var best ssa.Value
+	bestDepth, bestPos := -1, -1
+	depth := func(b *ssa.BasicBlock) int {
+		d := 0
+		for x := b; x != nil; x = x.Idom() {
+			d++
+		}
+		return d
+	}
+	consider := func(v ssa.Value) {
+		var blk *ssa.BasicBlock
+		pos := -1
+		switch v := v.(type) {
+		case *ssa.Parameter:
+			if best == nil {
+				best = v
+			}
+			return
+		case ssa.Instruction:
+			blk = v.Block()
+			for i, x := range blk.Instrs {
+				if x == v {
+					pos = i
+				}
+			}
+		default:
+			return
+		}
+		if blk == nil || !(blk.Dominates(head)) || blk == head {
+			return
+		}
+		if _, ok := fr.regs[v]; !ok {
+			return
+		}
+		d := depth(blk)
+		if d > bestDepth || (d == bestDepth && pos > bestPos) {
+			best, bestDepth, bestPos = v, d, pos
+		}
+	}
+	for _, b := range fr.fn.Blocks {
+		for _, ins := range b.Instrs {
+			if d, ok := ins.(*ssa.DebugRef); ok && !d.IsAddr {
+				if id, ok := d.Expr.(*ast.Ident); ok && id.Name == name {
+					consider(d.X)
+				}
+			}
+		}
+	}
+	if best == nil {
+		return SVal{}, false
+	}
+	return env.fromValue(env.x.get(fr, env.st, best), best.Type()), true
 }
